@@ -36,7 +36,8 @@ AnsFails(e) ==
 Fails(e) ==
   IF e.ev = "hang" THEN <<"X.hang">>
   ELSE IF e.ev # "client" THEN <<"unknown-event">>
-  ELSE IF e.panic # "" \/ ~e.seen.ok THEN <<"X.client-total">>
+  ELSE IF e.panic # "" THEN <<"X.client-total">>
+  ELSE IF ~e.seen.ok THEN <<"X.client-total", "C17.struct">>     \* what reached the peer is not (one) JSON document
   ELSE Tag(e.ids.sender = e.cfg.sender /\ e.ids.receiver = e.cfg.receiver /\ ~e.ids.async, "X.client-ids")    \* the client reports its configuration
        \o (IF e.method \in RequestMethods THEN ReqFails(e) ELSE AnsFails(e))
 
